@@ -102,7 +102,7 @@ BOUNDS = {
                 '(constants 1, \'k\', kw); pairs: 157 lists squared x 4 layerings x 173 calls; kind mixing and @no_kwargs on 16 lists; '
                 'triples: 22 lists cubed x 5 layerings; composite contexts on 16 lists; two keywords: T1, T2 over {Any, A, B, C, A?, AC, Lazy}, values {a, b, c, n, null, 1}; '
                 'registration histories: 7 invalid lists (also hidden-then-lazy, **kw only, lazy then eager, lazy *r), accepted overloads from 7 lists squared; '
-                'kind construction: alone on 16 lists x 100 calls; the second overload also built by every path, 3 lists squared, 100 calls of arity <= 2; '
+                'kind construction: alone on 16 lists x 100 calls; the second overload also built by every path, 3 lists x 2 lists, 100 calls of arity <= 2; '
                 'type alphabet: 55 types (2 more YaqlExpression unions); two parameters: 27 types squared x 43 arguments squared; pairs: 27 types squared (also Lambda(method=True), StringConstant, BooleanConstant?, PythonType(object), String?, PythonType(A)) x 4 layerings (also grandchild)',
 }
 
@@ -889,7 +889,7 @@ def job_construct(tier, part, of):
                 run_on(res, ('construct', 'one', vi, pi), ctx, strip_paths(built), calls, text='always',
                        extra={'built': built}, key=path_class(via))
         for name in sorted(CONSTRUCT_ARRANGEMENTS):
-            for (ia, pa), (ib, pb), (si, (k2, via2)) in itertools.product(enumerate(pls), enumerate(pls), enumerate(seconds)):
+            for (ia, pa), (ib, pb), (si, (k2, via2)) in itertools.product(enumerate(pls), enumerate(pls[:2]), enumerate(seconds)):
                 n += 1
                 if n % of != part:
                     continue
